@@ -40,6 +40,13 @@ static const unsigned RUN_WATCHDOG_S = 30;
 static void on_watchdog(int) { static const char m[] = "VSIM-HANG: run exceeded the watchdog\n"; (void) !write(2, m, sizeof m - 1); __sanitizer_print_stack_trace(); _exit(79); }
 static void watchdog_arm(unsigned s) { signal(SIGALRM, on_watchdog); alarm(s); }
 
+#if defined(VSIM_VARIANT_TSAN)
+static const char *BUILD_VARIANT = "tsan";
+#elif defined(VSIM_VARIANT_ASAN)
+static const char *BUILD_VARIANT = "asan";
+#else
+static const char *BUILD_VARIANT = "plain";
+#endif
 static std::vector<PropModule> &registry() { static std::vector<PropModule> r; return r; }
 void register_module(const PropModule &m) { registry().push_back(m); }
 const PropModule *find_module(const std::string &id) {
@@ -92,7 +99,10 @@ static bool de_result(const std::string &txt, RunResult &r) {
 static void classify_crash(const std::string &text, int status, std::string &kind, std::string &func) {
     kind = "signal"; func = "?";
     size_t p = text.find("ERROR: AddressSanitizer: ");
-    if (text.find("VSIM-HANG") != std::string::npos) {
+    if (text.find("VSIM-DEADLOCK") != std::string::npos) {
+        kind = "deadlock"; func = "lock_cycle";
+        return;
+    } else if (text.find("VSIM-HANG") != std::string::npos) {
         kind = "hang";
     } else if (p != std::string::npos) {
         size_t e = text.find_first_of(" \n", p + 25);
@@ -112,6 +122,23 @@ static void classify_crash(const std::string &text, int status, std::string &kin
         kind = "signal:" + std::to_string(WTERMSIG(status));
     } else if (WIFEXITED(status)) {
         kind = "exit:" + std::to_string(WEXITSTATUS(status));
+    }
+    if (kind.rfind("tsan:", 0) == 0) {
+        // ThreadSanitizer: name the first /repo frame of each of the two access stacks ("    #N func /repo/file.c:line:col (...)")
+        size_t w = text.find("WARNING: ThreadSanitizer");
+        std::istringstream tin(text.substr(w == std::string::npos ? 0 : w)); std::string tl; std::vector<std::string> tops; bool in_stack = false, have = false;
+        while (std::getline(tin, tl) && tops.size() < 2) {
+            size_t h = tl.find("#");
+            bool frame = h != std::string::npos && tl.find_first_not_of(' ') == h;
+            if (!frame) { in_stack = false; if (tl.find(" of size ") != std::string::npos || tl.find("Previous ") != std::string::npos) { have = false; in_stack = true; } continue; }
+            if (!in_stack || have) { continue; }
+            size_t rp = tl.find(" /repo/");
+            if (rp == std::string::npos) { continue; }
+            size_t s0 = tl.find(' ', h); if (s0 == std::string::npos || s0 >= rp) { continue; }
+            std::string fn = tl.substr(s0 + 1, rp - s0 - 1);
+            tops.push_back(fn); have = true;
+        }
+        if (!tops.empty()) { std::sort(tops.begin(), tops.end()); func = tops[0]; if (tops.size() > 1 && tops[1] != tops[0]) { func += "+" + tops[1]; } return; }
     }
     // top frame inside the repository
     std::istringstream in(text); std::string line;
@@ -498,7 +525,7 @@ static int cmd_check(const std::string &id, int tier, uint64_t seed, int64_t run
         reported_sigs.insert(vm.sig);
         std::string rp = VERIF_DIR + "/replays/" + m->id + "-" + std::to_string(minp.seed) + "-" + u64hex(hash_str(vm.sig)).substr(8) + ".json";
         std::string detail = vm.detail; if (detail.size() > 1500) { detail.resize(1500); }
-        std::string rj = "{\"property\":\"" + std::string(m->id) + "\",\"engine\":\"" + m->engine + "\",\"expected_class\":\"" + json_escape(vm.cls) +
+        std::string rj = "{\"property\":\"" + std::string(m->id) + "\",\"engine\":\"" + m->engine + "\",\"build_variant\":\"" + BUILD_VARIANT + "\",\"expected_class\":\"" + json_escape(vm.cls) +
                          "\",\"expected_signature\":\"" + json_escape(vm.sig) + "\",\"expected_fingerprint\":\"" + u64hex(vm.fp) + "\",\"detail\":\"" +
                          json_escape(detail) + "\",\"original_ops\":" + std::to_string(c.plan.ops.size()) + ",\"minimised_ops\":" + std::to_string(minp.ops.size()) +
                          ",\"minimise_execs\":" + std::to_string(g_min_execs) + ",\"plan\":" + minp.json() + "}\n";
@@ -539,6 +566,17 @@ static int cmd_check(const std::string &id, int tier, uint64_t seed, int64_t run
     ev << "  \"faults_enabled_never_fired\": " << json_str_list(enabled_never) << ",\n";
     ev << "  \"states_reached\": " << st.states.size() << ",\n";
     { std::vector<std::string> some; for (auto &s : st.states) { if (some.size() < 40) { some.push_back(s); } } ev << "  \"states_sample\": " << json_str_list(some) << ",\n"; }
+#if defined(VSIM_VARIANT_TSAN)
+    ev << "  \"build_variant\": \"tsan\",\n";
+#elif defined(VSIM_VARIANT_ASAN)
+    ev << "  \"build_variant\": \"asan+ubsan\",\n";
+#else
+    ev << "  \"build_variant\": \"plain\",\n";
+#endif
+    if (const char *emb = getenv("VSIM_EVIDENCE_EMBED")) {
+        // evidence of the same check run under another build (C20: the ASan pass), embedded verbatim
+        std::string other; if (read_file(emb, other) && !other.empty()) { while (!other.empty() && (other.back() == '\n' || other.back() == ' ')) { other.pop_back(); } ev << "  \"second_build_pass\": " << other << ",\n"; }
+    }
     ev << "  \"crashed_runs\": " << st.crashes << ",\n";
     ev << "  \"raw_violating_runs\": " << st.violations_raw << ",\n";
     ev << "  \"determinism\": {\"runs_rechecked_in_process\": " << st.det_checked << ", \"mismatches\": " << st.det_mismatch << ", \"nondeterministic_violations\": " << nondeterministic << "},\n";
@@ -550,7 +588,8 @@ static int cmd_check(const std::string &id, int tier, uint64_t seed, int64_t run
     ev << "]\n },\n";
     ev << " \"assumptions\": " << json_str_list(m->assumptions) << "\n}\n";
     mkdir((VERIF_DIR + "/evidence").c_str(), 0755);
-    write_file(VERIF_DIR + "/evidence/" + m->id + ".json", ev.str());
+    if (const char *ep = getenv("VSIM_EVIDENCE_PATH")) { write_file(ep, ev.str()); }
+    else { write_file(VERIF_DIR + "/evidence/" + m->id + ".json", ev.str()); }
 
     printf("vsim: %s %s: %llu runs (%zu distinct non-trivial), %llu crashed, %llu raw violating, determinism %llu/%llu ok, %.1fs\n", m->id, tier ? "thorough" : "quick",
            (unsigned long long) st.evaluations, st.distinct_nontrivial.size(), (unsigned long long) st.crashes, (unsigned long long) st.violations_raw,
@@ -600,7 +639,7 @@ int main(int argc, char **argv) {
     std::vector<std::string> a(argv + 1, argv + argc);
     if (a.empty()) { fprintf(stderr, "usage: vsim check <id> [--tier quick|thorough] [--seed N] [--runs N] [--secs N] [--workers N] | replay <file> | run1 <id> <index> | list\n"); return 2; }
     std::string cmd = a[0];
-    int tier = 0; uint64_t seed = 20261002; int64_t runs = -1, secs = -1; int workers = 8; bool verbose = false;
+    int tier = 0; uint64_t seed = 20261002; int64_t runs = -1, secs = -1; int workers = 16; bool verbose = false;
     if (const char *s = getenv("VERIF_SEED")) { if (*s) { seed = strtoull(s, nullptr, 10); } }
     if (const char *t = getenv("VERIF_TIER")) { if (!strcmp(t, "thorough")) { tier = 1; } }
     std::vector<std::string> pos;
